@@ -239,8 +239,10 @@ func (self AnalyzedRangeLiteralExpression) String() string {
 	}
 	return fmt.Sprintf("%s..%s%s", self.Start, endIsInclusiveStr, self.End)
 }
-func (self AnalyzedRangeLiteralExpression) Type() Type     { return NewRangeType(self.Range) }
-func (self AnalyzedRangeLiteralExpression) Constant() bool { return true }
+func (self AnalyzedRangeLiteralExpression) Type() Type { return NewRangeType(self.Range) }
+func (self AnalyzedRangeLiteralExpression) Constant() bool {
+	return self.Start.Constant() && self.End.Constant()
+}
 
 //
 // List literal
